@@ -543,6 +543,7 @@ func c01other(c *Ctx, roots []*ssa.Function, reach map[*ssa.Function]bool, tab *
 	_ = ast.Inspect
 	// ---- R7: tag/payload agreement behind the triaged assertions on OfferRequest.Request
 	c01TaggedUnion(c, "OfferRequest", "Kind", "Request")
+	c01LockPairing(c, reach)
 }
 
 // locallyGuarded re-derives, for a site the compiler could not prove, a guard the checker can
